@@ -35,6 +35,17 @@ CHECKS = {
         "Wrapper = function-form MetaData(src, dict-literal); extract_metadata is not required to preserve its argument.",
         "DESIGN.md section 4, C15",
     ),
+    "C20": (
+        "Hypothesis query generation + exhaustive single-edit enumeration per query; oracle = independent structural equality "
+        "(hash equal <=> struct_eq), metamorphic equal-structure renderings, differential against a child process with another "
+        "PYTHONHASHSEED",
+        "For every generated query: hash equality is required for re-tokenised/re-positioned/unparsed/annotated renderings, "
+        "for string vs ast vs callable supply on different dataset objects with and without QMetaData and for a second process; "
+        "hash inequality is required for every single structural edit (enumerated exhaustively per query), each pair classified "
+        "by an independent recursive structural equality.",
+        "Trusts the 12-line struct_eq; md5 collisions are ignored; one child process per worker samples process independence.",
+        "DESIGN.md section 4, C20",
+    ),
 }
 
 NOT_YET = "check not built yet in this round (work in progress; see DESIGN.md section 4 for the planned generator/oracle)"
